@@ -457,8 +457,17 @@ def stage_r_header(rep, rng, names, n):
         raw = common.model_batch([('make.header_text', [us, ts, ds, os_]), ('make.header_text', [us, ['all'], ts, []])] +
                                  [('make.header_text', [us, [x], [], []]) for x in ds + os_])
         hdr, all_hdr, pre = d_str(raw[0]), d_str(raw[1]), [d_str(x) for x in raw[2:]]
-        mp = common.model_batch([('make.parse_rule_header', [hdr])])[0]
+        mp, a1, a2, a3 = common.model_batch([('make.parse_rule_header', [hdr]), ('make.ar_free', [ts]), ('make.ar_free', [ds]),
+                                             ('make.ar_free', [os_])])
         mv = d_opt(lambda x: (d_list(d_str, x[0]), d_list(d_str, x[1]), d_list(d_str, x[2])), mp)
+        if not (d_bool(a1) and d_bool(a2) and d_bool(a3)):
+            # lib(member) / lib(m1 m2): GNU Make reads an archive member whatever is written - outside the format (the guard
+            # ar_free of C04_make_rule_rt); the reference reading must reject the header, Make is not consulted
+            rep.count('r_header_archive_lists_outside_format')
+            if mv is not None:
+                rep.fail('R:make_rule_header - header %r: archive-member list %r accepted by the reference reading' % (hdr, (ts, ds, os_)),
+                         {'obligation': 'R:make_rule_header', 'header': hdr, 'declared': [ts, ds, os_], 'model': mv}, found_input=False)
+            continue
         d = common.scratch('c04h')
         try:
             log = os.path.join(d, 'LOG')
@@ -483,7 +492,8 @@ def stage_r_header(rep, rng, names, n):
                       'out': (p.stdout + p.stderr).decode('utf-8', 'replace')[-300:]}, found_input=False)
     # hand-written headers, in particular the bar after the order-only separator: the expected log is computed from the
     # model's parse, the prerequisites get rules written with the reference escaping
-    for hdr in ['t: | x\\|y', 't: a\\|b | c', 't: a\\|b c\\ d | e\\|f g', 't u: d', 't:', 't: |', 't: a\\:b | c\\#d']:
+    for hdr in ['t: | x\\|y', 't: a\\|b | c', 't: a\\|b c\\ d | e\\|f g', 't u: d', 't:', 't: |', 't: a\\:b | c\\#d',
+                '(x) y) foo(1).o: p(q | r)', 'a() b(: (c)']:       # parentheses that do NOT form an archive member / group
         mv = d_opt(lambda x: (d_list(d_str, x[0]), d_list(d_str, x[1]), d_list(d_str, x[2])),
                    common.model_batch([('make.parse_rule_header', [hdr])])[0])
         if mv is None:
